@@ -38,8 +38,10 @@ rc, o = sh(f"git apply out/patch{n}.diff")
 out["apply_rc"] = rc
 if rc == 0:
     t = time.time()
-    rc, o = sh("/venv/bin/python -m pytest -q -p no:cacheprovider -x 2>&1 | tail -3", timeout=1200)
-    out["tests"] = o.strip().splitlines()[-1] if o.strip() else ""
+    rc, o = sh("/venv/bin/python -m pytest -q -p no:cacheprovider -x 2>&1 | tail -15", timeout=1200)
+    import re as _re
+    summ = [l for l in o.strip().splitlines() if _re.search(r"\d+ (passed|failed|error)", l)]
+    out["tests"] = summ[-1] if summ else (o.strip().splitlines()[-1] if o.strip() else "")
     out["tests_pass"] = " passed" in out["tests"] and "failed" not in out["tests"] and "error" not in out["tests"]
     rc, o = sh(f"/venv/bin/python out/demo{n}.py", timeout=180)
     out["demo_patched_rc"] = rc
